@@ -2025,6 +2025,7 @@ class DynamicSpaceImpl(BaseSpaceImpl):
             arguments,
             base.doc
         )
+        self.allow_none = base.allow_none
         self._init_cells()
 
     def _init_root(self, parent):
